@@ -7,6 +7,7 @@ import (
 	"path/filepath"
 	"sort"
 	"strings"
+	"time"
 
 	sdk "github.com/cosmos/cosmos-sdk/types"
 	"github.com/cosmos/cosmos-sdk/types/query"
@@ -374,6 +375,55 @@ func listRuns(c *chain, ctx sdk.Context, r *rng) []*listRun {
 	return runs
 }
 
+// addSyntheticStreams stores (in one extra committed block, through the keeper) streams between addresses of
+// other legal lengths - 1, 21, 32, 255 bytes - including senders whose bytes END in "<len><shorter sender>" and
+// receivers that are byte-prefixes of other receivers: the states a chain with module / group-policy /
+// interchain accounts reaches.  Only the list queries look at them.
+func addSyntheticStreams(c *chain, r *rng) {
+	if c.begin(2*time.Second) != nil {
+		return
+	}
+	ctx := c.ctx()
+	var base []sdk.AccAddress
+	for i := 0; i < 3; i++ {
+		base = append(base, c.addrOf(i))
+	}
+	pad := func(n int, tail []byte) sdk.AccAddress {
+		bz := make([]byte, n)
+		for i := range bz {
+			bz[i] = byte(r.next())
+		}
+		copy(bz[n-len(tail):], tail)
+		return sdk.AccAddress(bz)
+	}
+	var addrs []sdk.AccAddress
+	for _, a := range base {
+		suffix := append([]byte{byte(len(a))}, a...) // looks like a length-prefixed shorter address
+		addrs = append(addrs, pad(32, suffix), pad(21, a[:20]), sdk.AccAddress(append(append([]byte{}, a...), 0x14)), pad(255, suffix))
+	}
+	addrs = append(addrs, sdk.AccAddress([]byte{0x01}), sdk.AccAddress([]byte{0x14}))
+	n := 0
+	for i := 0; i < 14; i++ {
+		rc := addrs[r.intn(len(addrs))]
+		sn := addrs[r.intn(len(addrs))]
+		if r.chance(1, 2) {
+			rc = base[r.intn(len(base))]
+		}
+		if r.chance(1, 3) {
+			sn = base[r.intn(len(base))]
+		}
+		if rc.Equals(sn) {
+			continue
+		}
+		st := strtypes.Stream{Deposit: sdk.NewInt64Coin("nund", 0), FlowRate: int64(1 + n), LastOutflowTime: c.now, DepositZeroTime: c.now, Cancellable: true}
+		if c.app.StreamKeeper.SetStream(ctx, rc, sn, st) == nil {
+			n++
+		}
+	}
+	c.end(nil)
+	c.commit()
+}
+
 func cmdLists(args []string) {
 	fs := flag.NewFlagSet("lists", flag.ExitOnError)
 	out := fs.String("out", ".", "output directory")
@@ -392,6 +442,7 @@ func cmdLists(args []string) {
 		c := newChain(randCfg(r, true))
 		h := newHistory(c, r, w)
 		h.run(*blocks)
+		addSyntheticStreams(c, r)
 		ctx := c.committedCtx()
 		hashBefore := fmt.Sprintf("%X", c.app.LastCommitID().Hash)
 		exportBefore := moduleExport(c)
